@@ -224,11 +224,19 @@ def r2(chk):
     leaves = explore(mk, lambda e_: e_.run_fn(fm, e_.sym_params(fm)))
     # one-hot leaves tell which vector each slot copies
     copied = {}
+    conditional = {}
     for lf in leaves:
         on = [a for a, v in lf.decisions.items() if "repeat_for[" in a and v is True]
         if lf.get("self.skip_repeat") is False and lf.get("other.repeat") == "Some" and len(on) == 1:
             i = int(re.search(r"repeat_for\[(\d+)\]", on[0]).group(1))
-            copied[i] = [(e[0], e[1], e[2]) for e in lf.effects if e[1] in ("extend", "append", "push") or e[0] == "assign"]
+            eff_ = [(e[0], e[1], e[2]) for e in lf.effects if e[1] in ("extend", "append", "push") or e[0] == "assign"]
+            extra = sorted(a for a in lf.decisions if a not in ("self.skip_repeat", "other.repeat") and "repeat_for[" not in a)
+            if i in copied and copied[i] != eff_:
+                conditional[i] = extra
+            if i not in copied or eff_:
+                copied[i] = eff_ if (i not in copied or copied[i]) else copied[i]
+            if not eff_:
+                conditional.setdefault(i, extra)
     want = {"map": "attrs", "child": "child_attrs", "parent": "parent_attrs", "ghost": "ghost_attrs", "type_hint": "type_hint_attrs"}
     var_of = {"map": "Attr", "child": "Child", "parent": "Parent", "ghost": "Ghost", "type_hint": "TypeHint"}
     for pos, n in enumerate(names):
@@ -244,6 +252,9 @@ def r2(chk):
             # copying by value or through clone()/iter().cloned()/to_vec() is the same copy
             return [(a, "extend" if b in ("extend", "append", "extend_from_slice") else b, [re.sub(r"(\.clone\(\)|\.iter\(\)(\.cloned\(\))?|\.to_vec\(\)|\.into_iter\(\))+$", "", str(x)) for x in c]) for a, b, c in (es or [])]
         eff = nrm(eff) if eff is not None else None
+        if slot[v] in conditional:
+            chk.bad("R2", key + "/unconditional", ATTR, fm.line, "the repeated instructions of this category are copied only under an additional condition on the receiving member (a member that has instructions of its own no longer receives the repeated ones)",
+                    found=conditional[slot[v]][:3])
         chk.expect("R2", key, slot[v] == pos and eff == exp, ATTR, fm.line, "repeat category copies the wrong instruction vector (or its list position and slot disagree)",
                    expected={"slot": pos, "copies": exp}, found={"slot": slot[v], "copies": eff})
     chk.expect("R2", "member-repeat/all", sorted(names) == sorted(want), ATTR, fm.line, "documented member repeat categories", expected=sorted(want), found=names)
@@ -356,7 +367,12 @@ def r5(chk):
     tuples = [n for fn_ in repo.fns(ATTR) for n in walk(fn_.body) if n["k"] == "Tuple" and any(render(e_).replace(" ", "").endswith(".applicable_to") for e_ in n["elems"])]
     good = [t for t in tuples if len(t["elems"]) == 2 and re.fullmatch(r"(\w+)\.applicable_to", render(t["elems"][0]).replace(" ", "")) and
             render(t["elems"][1]).replace(" ", "") == render(t["elems"][0]).replace(" ", "").replace(".applicable_to", ".fallible")]
-    chk.shape("R5", "repeat-key-definition", bool(tuples) and len(good) == len(tuples), bool(tuples) and len(good) < len(tuples), ATTR, f2.line,
+    # recognised-bad as well: the pending-repeat map is keyed / queried by the applicability vector alone (an instruction and its try_ twin share it)
+    alone = [m_ for fn_ in repo.fns(ATTR) for m_ in method_calls(fn_.body) if m_["method"] in ("insert", "get", "get_mut", "remove", "contains_key", "entry") and m_["args"] and
+             re.fullmatch(r"&?(\w+\.)+applicable_to(\.clone\(\))?", render(m_["args"][0]).replace(" ", ""))]
+    alone += [st for fn_ in repo.fns(ATTR) if fn_.name in ("get_data_type_attrs",) for st in walk(fn_.body) if st["k"] == "Let" and st.get("init") is not None and
+              re.fullmatch(r"&?(\w+\.)+applicable_to(\.clone\(\))?", render(st["init"]).replace(" ", "")) and any(m_["args"] and render(m_["args"][0]).replace(" ", "").lstrip("&") == (st["pat"].get("name") or "?") for m_ in method_calls(fn_.body) if m_["method"] in ("insert", "get", "get_mut", "remove", "contains_key"))]
+    chk.shape("R5", "repeat-key-definition", bool(tuples) and len(good) == len(tuples) and not alone, (bool(tuples) and len(good) < len(tuples)) or bool(alone), ATTR, f2.line,
               what="repeat map key is not (applicable_to, fallible) of one instruction", found=[render(t)[:60] for t in tuples])
 
 
